@@ -80,6 +80,29 @@ Spells(t, s) ==
 StrsUpTo(k) == UNION {[1..m -> Classes] : m \in 0..k}
 
 -----------------------------------------------------------------------------
+(* Member order.  Canonical JSON writes the members of an object sorted by  *)
+(* name in CODE POINT order (= UTF-8 byte order; python's sorted(), Go's    *)
+(* sort.Strings).  Over the order classes                                   *)
+(*    A (ASCII) < D (DEL) < U (BMP below the surrogates) < H (BMP above the  *)
+(*    surrogates, U+E000..U+FFFF) < S (supplementary planes)                *)
+(* the order by UTF-16 code unit (what JavaScript and RFC 8785 use) differs *)
+(* exactly where an H meets an S.                                           *)
+OrdClasses == <<"A", "D", "U", "H", "S">>
+Rank(c) == CHOOSE i \in 1..Len(OrdClasses) : OrdClasses[i] = c
+Rank16(c) == CASE c = "S" -> 4 [] c = "H" -> 5 [] OTHER -> Rank(c)
+
+RECURSIVE LessBy(_, _, _)
+LessBy(R(_), x, y) ==
+  IF x = << >> THEN y # << >>
+  ELSE IF y = << >> THEN FALSE
+  ELSE IF R(Head(x)) # R(Head(y)) THEN R(Head(x)) < R(Head(y))
+  ELSE LessBy(R, Tail(x), Tail(y))
+
+CodePointLess(x, y) == LessBy(Rank, x, y)
+Utf16Less(x, y) == LessBy(Rank16, x, y)
+NamesUpTo(k) == UNION {[1..m -> {"A", "D", "U", "H", "S"}] : m \in 1..k}
+
+-----------------------------------------------------------------------------
 (* Number classes and what canonicalisation must do with them (C10).        *)
 NumClasses == {"i64min", "neg", "zero", "pos", "i64max", "i64max+1", "u64max",
                "u64max+1", "i64min-1", "frac", "exp", "one.zero", "negzero", "bigexp"}
